@@ -187,10 +187,14 @@ class Ctx:
         self._sync = [len(self.pc), len(self.facts)]
         return s
 
-    def assume(self, b):
+    def assume(self, b, definitional=False):
+        """definitional: an axiom about a freshly created symbol (range of a fresh value, well-formedness of a fresh extended
+        real): it stays unconditional when added inside a merged evaluation (the symbol is memoised and read on other sub-paths)"""
         b = zb(b)
         if z3.is_true(b):
             return
+        if definitional:
+            self.__dict__.setdefault("_defs", set()).add(tid(b))
         self.facts.append(b)
 
     def add_pc(self, b):
@@ -275,7 +279,8 @@ class Ctx:
                         self._qs = None
                     self._fcache = dict(saved_cache)
                 pcnd = z3.And(*conds) if len(conds) > 1 else (conds[0] if conds else z3.BoolVal(True))
-                kept.extend(z3.Implies(pcnd, f) for f in newfacts)
+                defs = self.__dict__.get("_defs", ())
+                kept.extend((f if tid(f) in defs else z3.Implies(pcnd, f)) for f in newfacts)
                 if res is not None:
                     out.append((pcnd, res))
                 for k in range(len(pre), len(self.decisions)):
@@ -696,7 +701,7 @@ class XR:
         x = XR(z3.Real(name), z3.Bool(name + ".nan"), z3.Bool(name + ".pinf"), z3.Bool(name + ".ninf"), npk=npk)
         c = ctx()
         if c is not None:
-            c.assume(x.wf())
+            c.assume(x.wf(), definitional=True)
         return x
 
     def wf(self):
